@@ -152,6 +152,18 @@ func runReplay(path string) int {
 			v = c.reproduces(q, obs.Class)
 		}
 	}
+	if v == nil && strings.HasPrefix(obs.Class, "race:") {
+		// a single report is still a report: the detector has no false positives
+		for i := 0; i < 6 && v == nil; i++ {
+			pr := c.env.Run(q)
+			j := c.judge(c, q, pr)
+			for k := range j.Violations {
+				if sameClass(obs.Class, j.Violations[k].Class) {
+					v = &j.Violations[k]
+				}
+			}
+		}
+	}
 	if v == nil {
 		fmt.Printf("NOT REPRODUCED property=%s class=%s (on the current tree of /repo)\n", p.Property, obs.Class)
 		return 2
